@@ -161,7 +161,7 @@ def create_database(
         cmd.zettel_dir, file_to_hash, zorg_pages
     )
     _write_file_hash_to_disk(file_hash_path, file_to_hash)
-    error_file_whitelist.write_text("\n".join(sorted(error_files)))
+    c.atomic_write_text(error_file_whitelist, "\n".join(sorted(error_files)))
     session.commit()
 
 
@@ -252,7 +252,7 @@ def reindex_database(
         cmd.zettel_dir, file_to_hash, zorg_pages
     )
     _write_file_hash_to_disk(file_hash_path, file_to_hash)
-    error_file_whitelist.write_text("\n".join(sorted(error_files)))
+    c.atomic_write_text(error_file_whitelist, "\n".join(sorted(error_files)))
     session.commit()
 
 
@@ -350,8 +350,10 @@ def _write_file_hash_to_disk(
     file_hash_path: Path, file_to_hash: dict[str, str]
 ) -> None:
     _LOGGER.debug("Writing hash map to disk", file=str(file_hash_path))
-    with file_hash_path.open("w") as f:
-        json.dump(dict(sorted(file_to_hash.items())), f, indent=4)
+    c.atomic_write_text(
+        file_hash_path,
+        json.dumps(dict(sorted(file_to_hash.items())), indent=4),
+    )
 
 
 def _add_zid_to_line(zid: str, line: str) -> str:
@@ -491,7 +493,7 @@ def _update_zo_file(
         zorg_page=str(zo_path),
         notes_to_update=len(notes_to_update),
     )
-    zo_path.write_text("\n".join(zlines))
+    c.atomic_write_text(zo_path, "\n".join(zlines))
 
     # Only vouch for the file we just rewrote: any other file might have been
     # edited since it was last indexed (e.g. when reindexing explicit paths).
